@@ -177,6 +177,14 @@ Local Notation def_correlation := (def_correlation R r0 radd).
 Local Notation madd := (madd R radd).
 Local Notation mscale := (mscale R rmul).
 Local Notation mzero := (mzero R r0).
+Local Notation ident_op := (ident_op R r0 r1 radd rmul).
+Local Notation obs_m2 := (obs_m2 R r0 r1 radd rmul rconj).
+Local Notation obs_variance := (obs_variance R r0 r1 radd rmul rconj rsub).
+Local Notation def_m2 := (def_m2 R r0 radd rmul).
+Local Notation def_expect := (def_expect R r0 radd rmul).
+Local Notation def_variance := (def_variance R r0 radd rmul rsub).
+Local Notation hermitian := (hermitian R rconj).
+Local Notation apply_to := (apply_to R r0 radd rmul rconj).
 
 (** ** [qutip.tensor] is the entry-wise product over the qudits *)
 Theorem kronl_digs : forall d (fs : list mat) i j,
@@ -350,6 +358,45 @@ Theorem correlation_diag : forall d n one s i,
 Proof.
   intros. unfold ObsLin.obs_correlation, ObsLin.obs_occupation, pair_set.
   rewrite Nat.eqb_refl. reflexivity.
+Qed.
+
+(** ** EnergySecondMoment and EnergyVariance, kets and density matrices *)
+
+(** the identity built by [from_operator_repr(operations=[(1.0, [])])] *)
+Lemma ident_entry : forall d n a k, 0 < d -> a < d ^ n -> k < d ^ n ->
+  ident_op d n a k = delta a k.
+Proof.
+  intros d n a k Hd Ha Hk. unfold ObsLin.ident_op.
+  rewrite from_repr_entry. simpl.
+  assert (E : tensor_factors n [] = map (gfac [] O) (seq 0 n)).
+  { unfold ObsLin.tensor_factors. simpl. rewrite (repeat_map_seq delta n 0).
+    apply map_ext. intros q. reflexivity. }
+  rewrite E. rewrite prod_gfac by apply digs_length. rewrite okdigs_nil, andb_true_r.
+  unfold ObsLin.delta.
+  destruct (leqb (digs d n a) (digs d n k)) eqn:El.
+  - apply leqb_eq in El. apply digs_inj in El; try assumption. subst.
+    rewrite Nat.eqb_refl. ring.
+  - destruct (Nat.eqb a k) eqn:E2.
+    + apply Nat.eqb_eq in E2. subst.
+      assert (leqb (digs d n k) (digs d n k) = true) by (apply leqb_eq; reflexivity). congruence.
+    + ring.
+Qed.
+
+Theorem second_moment_correct : forall d n H s, 0 < d -> hermitian (d ^ n) H ->
+  obs_m2 d n H s = def_m2 (d ^ n) H (rho_of s).
+Proof.
+  intros d n H s Hd HH. unfold ObsLin.obs_m2.
+  transitivity (expect (d ^ n) delta (apply_to (d ^ n) H s)).
+  - eapply expect_ext; eauto. intros i j Hi Hj. apply ident_entry; assumption.
+  - eapply fixed_second_moment_correct; eauto.
+Qed.
+
+Theorem variance_correct : forall d n H s, 0 < d -> hermitian (d ^ n) H ->
+  obs_variance d n H s = def_variance (d ^ n) H (rho_of s).
+Proof.
+  intros d n H s Hd HH. unfold ObsLin.obs_variance, ObsLin.def_variance.
+  rewrite second_moment_correct by assumption.
+  f_equal. f_equal; eapply expect_correct; eauto.
 Qed.
 
 End ObsTensorP.
